@@ -421,3 +421,12 @@ case(C + "neg_div", params={"x": INT}, returns=Tuple(INT, INT, INT, INT),
               "inst": "implies(x == 7, result == (-3, -2, 1, 3)) and implies(x == -7, result == (2, -1, -2, 1))"},
      canaries={"trunc": "implies(x == 7, result[0] == -2)", "posrem": "result[1] >= 0"},
      gen=lambda rng: {"x": rng.randint(-9, 9)})
+
+# ---- (*a, x, *b) with symbolic sequences; next(iter(c)) ---------------------------------------------------------------------------------------------
+case(C + "glue", params={"a": TupleOf(INT), "b": TupleOf(INT), "x": INT}, returns=TupleOf(INT),
+     ensures={"len": "len(result) == len(a) + len(b) + 1", "mid": "result[len(a)] == x", "pre": "all(result[i] == a[i] for i in range(len(a)))"},
+     canaries={"last": "result[len(result) - 1] == x", "short": "len(result) == len(a) + len(b)"},
+     gen=lambda rng: {"a": ints(rng), "b": [7] + ints(rng), "x": 99}, build=lambda d: {"a": tuple(d["a"]), "b": tuple(d["b"]), "x": d["x"]})
+case(C + "first_of", params={"t": TupleOf(STR)}, returns=STR, raises={"StopIteration": "len(t) == 0"},
+     ensures={"v": "result == t[0]"}, canaries={"last": "result == t[len(t) - 1]"},
+     gen=lambda rng: {"t": rng.choice([[], ["a"], ["a", "b"]])}, build=lambda d: {"t": tuple(d["t"])})
